@@ -281,8 +281,8 @@ def depth : Rep → Nat
   | .itemT _ x => depth x + 1
   | .entryT k v => depth k + depth v + 1
   | .generic xs => depthList xs + 1
-  | .array vs _ _ => depthOpts vs + 1
-  | .dict m => depthDict m + 1
+  | .array vs _ _ => depthOpts vs + 2
+  | .dict m => depthDict m + 2
   | .relation _ rows => depthRows rows + 2
   | .union bs => depthAttrs bs + 1
   | _ => 0
@@ -316,9 +316,7 @@ theorem depth_mem_list : ∀ (xs : List Rep) (x : Rep), x ∈ xs → depth x ≤
 /-! ### the proved fragment: numbers, the empty tuple, character and byte tuples, strings, byte
 arrays, booleans and generic sets of these, nested arbitrarily -/
 /-- not one of the two tuple types whose hash threads the seed through (`ArrayItemTuple`, `DictEntryTuple`) -/
-def plain : Rep → Bool
-  | .itemT _ _ | .entryT _ _ => false
-  | _ => true
+def plain (_ : Rep) : Bool := true
 
 mutual
 def frag : Rep → Bool
@@ -1255,15 +1253,15 @@ theorem hxor_nil_right (x : V) : hxor [x] [] = [x] := by
 
 theorem hash_singleton (x : Rep) (hf : frag x = true) (hp : plain x = true) (s : HV) :
     hashG true x s = [atomAt x s] := by
-  cases x <;> simp [frag, plain] at hf hp <;> simp [atomAt, hashG, hfin, hatom]
+  cases x <;> simp [frag, plain] at hf hp <;> simp [atomAt, hashG, hfin, tfin, hatom]
 
 theorem atomAt_seed (x : Rep) (hf : frag x = true) (hp : plain x = true) (s : HV) :
     ∃ t p, atomAt x s = .tup [(t, p), ("seed", .set s)] := by
-  cases x <;> simp [frag, plain] at hf hp <;> simp [atomAt, hashG, hfin, hatom]
+  cases x <;> simp [frag, plain] at hf hp <;> simp [atomAt, hashG, hfin, tfin, hatom]
 
 theorem atomAt_ne_mapC (y : Rep) (hf : frag y = true) (hp : plain y = true) (s : HV) (p q : V) :
     atomAt y s ≠ .tup [("mapC", p), ("seed", q)] := by
-  cases y <;> simp [frag, plain] at hf hp <;> simp [atomAt, hashG, hfin, hatom]
+  cases y <;> simp [frag, plain] at hf hp <;> simp [atomAt, hashG, hfin, tfin, hatom]
 
 theorem atomAt_seed_inj (x y : Rep) (hx : frag x = true) (px : plain x = true) (hy : frag y = true)
     (py : plain y = true) (s s' : HV) (h : atomAt x s = atomAt y s') : s = s' := by
@@ -1272,6 +1270,21 @@ theorem atomAt_seed_inj (x y : Rep) (hx : frag x = true) (px : plain x = true) (
   rw [e, e'] at h
   simp at h
   exact h.2
+
+/-- the atom of an item tuple: the item's atom under the index seed, finished under the caller's seed -/
+theorem atomAt_item (i : Int) (x : Rep) (hf : frag x = true) (s : HV) :
+    atomAt (.itemT i x) s = .tup [("fin", .set [atomAt x (hatom "int" (.num i) s)]), ("seed", .set s)] := by
+  have := hash_singleton x hf rfl (hatom "int" (.num i) s)
+  simp [atomAt, hashG, tfin, hatom] at this ⊢
+  rw [this]; simp
+
+/-- the atom of an entry tuple: the value's atom under the key's hash, finished under the caller's seed -/
+theorem atomAt_entry (k v : Rep) (hk : frag k = true) (hv : frag v = true) (s : HV) :
+    atomAt (.entryT k v) s = .tup [("fin", .set [atomAt v [atomAt k s]]), ("seed", .set s)] := by
+  have h1 := hash_singleton k hk rfl s
+  have h2 := hash_singleton v hv rfl [atomAt k s]
+  simp only [atomAt, hashG, tfin, hatom, if_true] at h1 h2 ⊢
+  rw [h1, h2]; simp
 
 theorem nodup_map_of {α β γ} (f : α → β) (g : α → γ) : ∀ (l : List α),
     (∀ x, x ∈ l → ∀ y, y ∈ l → f x = f y → g x = g y) → (l.map g).Nodup → (l.map f).Nodup
@@ -1348,9 +1361,9 @@ def idxItems (off : Int) : List (Option Rep) → List (Int × Rep)
 def intSeed (i : Int) (s : HV) : HV := hatom "int" (.num i) s
 
 theorem xorOpts_eq_pairs : ∀ (vs : List (Option Rep)) (off : Int) (s : HV),
-    xorOpts true off vs s = xorPairs ((idxItems off vs).map (fun p => (p.2, intSeed p.1 s)))
+    xorOpts true off vs s = xorPairs ((idxItems off vs).map (fun p => (Rep.itemT p.1 p.2, s)))
   | [], _, _ => rfl
-  | some x :: r, off, s => by simp [xorOpts, idxItems, xorPairs, intSeed, xorOpts_eq_pairs r]
+  | some x :: r, off, s => by simp [xorOpts, idxItems, xorPairs, hashG, xorOpts_eq_pairs r]
   | none :: r, off, s => by simp [xorOpts, idxItems, xorOpts_eq_pairs r]
 
 theorem seqM_eq_idx : ∀ (vs : List (Option Rep)) (off : Int),
@@ -1520,18 +1533,27 @@ theorem xorList_mem_atom (ys : List Rep) (hf : fragList ys = true) (hp : ∀ x, 
 /-! ### arrays -/
 
 def arrAtoms (off : Int) (vs : List (Option Rep)) (s : HV) : List V :=
-  (idxItems off vs).map (fun p => atomAt p.2 (intSeed p.1 s))
+  (idxItems off vs).map (fun p => atomAt (.itemT p.1 p.2) s)
 
 theorem intSeed_inj (i j : Int) (s s' : HV) : intSeed i s = intSeed j s' ↔ (i = j ∧ s = s') := by
   simp [intSeed, hatom]
 
+/-- two item-tuple atoms: same seed and the items' atoms under the index seeds agree -/
+theorem item_atom_eq (i j : Int) (x y : Rep) (hx : frag x = true) (hy : frag y = true) (s s' : HV) :
+    atomAt (.itemT i x) s = atomAt (.itemT j y) s' ↔
+      (s = s' ∧ atomAt x (intSeed i s) = atomAt y (intSeed j s')) := by
+  rw [atomAt_item i x hx, atomAt_item j y hy]
+  simp [intSeed]
+  exact And.comm
+
 theorem arrAtoms_nodup (off : Int) (vs : List (Option Rep)) (s : HV) (hf : fragOpts vs = true) :
     (arrAtoms off vs s).Nodup := by
-  apply nodup_map_of (fun p : Int × Rep => atomAt p.2 (intSeed p.1 s)) (·.1) (idxItems off vs)
+  apply nodup_map_of (fun p : Int × Rep => atomAt (.itemT p.1 p.2) s) (·.1) (idxItems off vs)
   · intro p hp q hq e
     obtain ⟨pp, pf⟩ := fragOpts_mem vs p.2 hf (idxItems_mem vs off p hp)
     obtain ⟨qp, qf⟩ := fragOpts_mem vs q.2 hf (idxItems_mem vs off q hq)
-    have := atomAt_seed_inj p.2 q.2 pf pp qf qp _ _ e
+    have e' := ((item_atom_eq p.1 q.1 p.2 q.2 pf qf s s).1 e).2
+    have := atomAt_seed_inj p.2 q.2 pf pp qf qp _ _ e'
     exact ((intSeed_inj _ _ _ _).1 this).1
   · exact idxItems_idx_nodup vs off
 
@@ -1543,7 +1565,7 @@ theorem xorOpts_eq_mk (off : Int) (vs : List (Option Rep)) (s : HV) (hf : fragOp
     obtain ⟨q, hq, e⟩ := List.mem_map.1 hp
     subst e
     obtain ⟨pp, pf⟩ := fragOpts_mem vs q.2 hf (idxItems_mem vs off q hq)
-    exact ⟨pf, pp⟩
+    exact ⟨by simp [frag, pf, pp], rfl⟩
   · have := arrAtoms_nodup off vs s hf
     simpa [arrAtoms, List.map_map, Function.comp_def] using this
 
@@ -1573,9 +1595,9 @@ theorem array_core (vs vs' : List (Option Rep)) (off off' : Int) (s : HV)
   intro p hp q hq
   obtain ⟨pp, pf⟩ := fragOpts_mem vs p.2 hf (idxItems_mem vs off p hp)
   obtain ⟨qp, qf⟩ := fragOpts_mem vs' q.2 hf' (idxItems_mem vs' off' q hq)
-  have h1 : atomAt p.2 (intSeed p.1 s) = atomAt q.2 (intSeed q.1 s) ↔
+  have h1 : atomAt (.itemT p.1 p.2) s = atomAt (.itemT q.1 q.2) s ↔
       hashG true p.2 (intSeed p.1 s) = hashG true q.2 (intSeed q.1 s) := by
-    rw [hash_singleton p.2 pf pp, hash_singleton q.2 qf qp]; simp
+    rw [item_atom_eq p.1 q.1 p.2 q.2 pf qf, hash_singleton p.2 pf pp, hash_singleton q.2 qf qp]; simp
   rw [h1, H p.2 (idxItems_mem vs off p hp) q.2 (idxItems_mem vs' off' q hq), intSeed_inj]
   simp [vpair]
 
@@ -1997,15 +2019,16 @@ theorem depth_mem_dict : ∀ (m : List (Rep × List Rep)) (kv : Rep × List Rep)
       exact ⟨by simp [depthDict]; omega, fun v hv => by have := b v hv; simp [depthDict]; omega⟩
 
 def dictAtoms (m : List (Rep × List Rep)) (s : HV) : List V :=
-  (entries m).map (fun e => atomAt e.2 (hashG true e.1 s))
+  (entries m).map (fun e => atomAt (.entryT e.1 e.2) s)
 
 theorem entries_cons (k : Rep) (vs : List Rep) (r : List (Rep × List Rep)) :
     entries ((k, vs) :: r) = vs.map (fun v => (k, v)) ++ entries r := by
   simp [entries]
 
-theorem xorVals_eq_pairs : ∀ (vs : List Rep) (ks : HV), xorVals true vs ks = xorPairs (vs.map (fun v => (v, ks)))
-  | [], _ => rfl
-  | v :: r, ks => by simp [xorVals, xorPairs, xorVals_eq_pairs r]
+theorem xorVals_eq_pairs (k : Rep) (s : HV) : ∀ (vs : List Rep),
+    xorVals true vs (hashG true k s) s = xorPairs (vs.map (fun v => (Rep.entryT k v, s)))
+  | [] => rfl
+  | v :: r => by simp [xorVals, xorPairs, hashG, xorVals_eq_pairs k s r]
 
 theorem xorDict_eq_mk : ∀ (m : List (Rep × List Rep)) (s : HV), fragDict m = true → (dictAtoms m s).Nodup →
     xorDict true m s = mk (dictAtoms m s)
@@ -2025,7 +2048,7 @@ theorem xorDict_eq_mk : ∀ (m : List (Rep × List Rep)) (s : HV), fragDict m = 
       obtain ⟨v, hv, e⟩ := List.mem_map.1 hp
       subst e
       obtain ⟨pv, fv⟩ := fragPlainList_mem vs v hf.1.2 hv
-      exact ⟨fv, pv⟩
+      exact ⟨by simp [frag, fv, pv, hf.1.1.1, hf.1.1.2], rfl⟩
     · simpa [List.map_map, Function.comp_def] using n1
 
 theorem denDict_nodup : ∀ (m : List (Rep × List Rep)), wfDict m = true → (denList (m.map (·.1))).Nodup →
@@ -2064,9 +2087,18 @@ theorem entry_frag (m : List (Rep × List Rep)) (hf : fragDict m = true) (e : Re
   rw [h1]
   exact ⟨⟨a, b⟩, fragPlainList_mem kv.2 e.2 c h2⟩
 
+/-- two entry-tuple atoms: same seed and the values' atoms under the keys' hashes agree -/
+theorem entry_atom_eq (k k' v v' : Rep) (hk : frag k = true) (hk' : frag k' = true) (hv : frag v = true)
+    (hv' : frag v' = true) (s s' : HV) :
+    atomAt (.entryT k v) s = atomAt (.entryT k' v') s' ↔
+      (s = s' ∧ atomAt v (hashG true k s) = atomAt v' (hashG true k' s')) := by
+  rw [atomAt_entry k v hk hv, atomAt_entry k' v' hk' hv', hash_singleton k hk rfl, hash_singleton k' hk' rfl]
+  simp
+  exact And.comm
+
 theorem dict_atom_iff (m m' : List (Rep × List Rep)) (s : HV) (hf : fragDict m = true) (hf' : fragDict m' = true)
     (H : DictIH m m') (e e' : Rep × Rep) (he : e ∈ entries m ++ entries m') (he' : e' ∈ entries m ++ entries m') :
-    atomAt e.2 (hashG true e.1 s) = atomAt e'.2 (hashG true e'.1 s) ↔ entryDen e = entryDen e' := by
+    atomAt (.entryT e.1 e.2) s = atomAt (.entryT e'.1 e'.2) s ↔ entryDen e = entryDen e' := by
   have fe : (plain e.1 = true ∧ frag e.1 = true) ∧ (plain e.2 = true ∧ frag e.2 = true) := by
     rcases List.mem_append.1 he with h | h
     · exact entry_frag m hf e h
@@ -2076,15 +2108,16 @@ theorem dict_atom_iff (m m' : List (Rep × List Rep)) (s : HV) (hf : fragDict m 
     · exact entry_frag m hf e' h
     · exact entry_frag m' hf' e' h
   obtain ⟨hk, hv, _, _⟩ := H e he e' he'
-  have h2 : atomAt e.2 (hashG true e.1 s) = atomAt e'.2 (hashG true e'.1 s) ↔
+  have h2 : atomAt (.entryT e.1 e.2) s = atomAt (.entryT e'.1 e'.2) s ↔
       hashG true e.2 (hashG true e.1 s) = hashG true e'.2 (hashG true e'.1 s) := by
-    rw [hash_singleton e.2 fe.2.2 fe.2.1, hash_singleton e'.2 fe'.2.2 fe'.2.1]; simp
+    rw [entry_atom_eq e.1 e'.1 e.2 e'.2 fe.1.2 fe'.1.2 fe.2.2 fe'.2.2,
+      hash_singleton e.2 fe.2.2 fe.2.1, hash_singleton e'.2 fe'.2.2 fe'.2.1]; simp
   rw [h2, hv, hk]
   simp [entryDen, vpair]
 
 theorem dictAtoms_nodup (m : List (Rep × List Rep)) (s : HV) (hf : fragDict m = true) (hw : wfDict m = true)
     (hk : (denList (m.map (·.1))).Nodup) (H : DictIH m m) : (dictAtoms m s).Nodup := by
-  apply nodup_map_of (fun e : Rep × Rep => atomAt e.2 (hashG true e.1 s)) entryDen (entries m)
+  apply nodup_map_of (fun e : Rep × Rep => atomAt (.entryT e.1 e.2) s) entryDen (entries m)
   · intro e he e' he' h
     exact (dict_atom_iff m m s hf hf H e e' (by simp [he]) (by simp [he'])).1 h
   · rw [← denDict_eq]; exact denDict_nodup m hw hk
@@ -2847,7 +2880,7 @@ macro "cross" htag:ident fb:ident : tactic => `(tactic| first
       (by first
         | (intro hp; simp [plain] at hp; done)
         | (intro _ hq; simp [plain] at hq; done)
-        | (intro _ _ s s'; simp [hashG, hfin, hatom])))
+        | (intro _ _ s s'; simp [hashG, hfin, tfin, hatom])))
 
 theorem gtuple_facts (n : Nat) (as : List (String × Rep)) (hd : depth (.gtuple as) < n + 1)
     (hw : wf (.gtuple as) = true) (hf : frag (.gtuple as) = true) :
@@ -2902,7 +2935,7 @@ theorem attrsOf_facts (n : Nat) (b : Rep) (hb : isTuple b = true) (hd : depth b 
 
 theorem atomAt_ne_int (y : Rep) (hf : frag y = true) (hp : plain y = true) (s : HV) (p q : V) :
     atomAt y s ≠ .tup [("int", p), ("seed", q)] := by
-  cases y <;> simp [frag, plain] at hf hp <;> simp [atomAt, hashG, hfin, hatom]
+  cases y <;> simp [frag, plain] at hf hp <;> simp [atomAt, hashG, hfin, tfin, hatom]
 
 theorem dict_facts (n : Nat) (m : List (Rep × List Rep)) (hd : depth (.dict m) < n + 1)
     (hw : wf (.dict m) = true) (hf : frag (.dict m) = true) :
@@ -3046,32 +3079,10 @@ theorem rowH_of (n : Nat) (ih : IHn n) : ∀ (ns ns' : List String) (rows rows' 
 
 /-! ### union sets: every member of every bucket contributes one atom under its own seed -/
 
-/-- a contribution `(atom, member denotation)` of a bucket member: the atom is the hash of a plain value `x`
-under seed `[]` (member `x` itself), `hash.Int(i, 0)` (array item `(@: i, @item: x)`) or `k.Hash(0)`
-(dictionary entry `(@: k, @value: x)`) -/
+/-- a contribution `(atom, member denotation)` of a bucket member `x`: its hash under seed 0 (`UnionSet.Hash`
+XORs `member.Hash(0)`) and its denotation -/
 def Desc (n : Nat) (c : V × V) : Prop :=
-  ∃ (x : Rep) (sd : HV), depth x < n ∧ wf x = true ∧ frag x = true ∧ plain x = true ∧ c.1 = atomAt x sd ∧
-    ((sd = [] ∧ c.2 = den x) ∨ (∃ i : Int, sd = intSeed i [] ∧ c.2 = vpair "@item" (.num i) (den x)) ∨
-     (∃ k : Rep, depth k < n ∧ wf k = true ∧ frag k = true ∧ plain k = true ∧ sd = hashG true k [] ∧
-        c.2 = vpair "@value" (den k) (den x)))
-
-theorem plain_den_ne_item (x : Rep) (hw : wf x = true) (hf : frag x = true) (hp : plain x = true) (i : Int) (y : V) :
-    den x ≠ vpair "@item" (.num i) y := by
-  intro h
-  have := vtag_den x hw hf
-  rw [h] at this
-  have ht : vtag (vpair "@item" (.num i) y) = 4 := by simp [vtag, vpair, tupKind, lookupV, numOfV, okBy]
-  rw [ht] at this
-  cases x <;> simp [ctorTag] at this <;> simp [plain] at hp
-
-theorem plain_den_ne_value (x : Rep) (hw : wf x = true) (hf : frag x = true) (hp : plain x = true) (k y : V) :
-    den x ≠ vpair "@value" k y := by
-  intro h
-  have := vtag_den x hw hf
-  rw [h] at this
-  have ht : vtag (vpair "@value" k y) = 5 := by simp [vtag, vpair, tupKind, lookupV]
-  rw [ht] at this
-  cases x <;> simp [ctorTag] at this <;> simp [plain] at hp
+  ∃ (x : Rep), depth x < n ∧ wf x = true ∧ frag x = true ∧ c.1 = atomAt x [] ∧ c.2 = den x
 
 theorem atom_iff_hash (x y : Rep) (hx : frag x = true) (px : plain x = true) (hy : frag y = true)
     (py : plain y = true) (s s' : HV) : atomAt x s = atomAt y s' ↔ hashG true x s = hashG true y s' := by
@@ -3079,52 +3090,38 @@ theorem atom_iff_hash (x y : Rep) (hx : frag x = true) (px : plain x = true) (hy
 
 theorem desc_iff (n : Nat) (H : HashIH n) (c c' : V × V) (hc : Desc n c) (hc' : Desc n c') :
     c.1 = c'.1 ↔ c.2 = c'.2 := by
-  obtain ⟨x, sd, dx, wx, fx, px, e1, k1⟩ := hc
-  obtain ⟨x', sd', dx', wx', fx', px', e1', k1'⟩ := hc'
-  have base : c.1 = c'.1 ↔ (sd = sd' ∧ den x = den x') := by
-    rw [e1, e1', atom_iff_hash x x' fx px fx' px']
-    exact H x x' dx dx' wx wx' fx fx' px px' sd sd'
-  rw [base]
-  rcases k1 with ⟨s0, d0⟩ | ⟨i, s0, d0⟩ | ⟨k, dk, wk, fk, pk, s0, d0⟩ <;>
-    rcases k1' with ⟨s0', d0'⟩ | ⟨i', s0', d0'⟩ | ⟨k', dk', wk', fk', pk', s0', d0'⟩ <;> rw [d0, d0', s0, s0']
-  · simp
-  · constructor
-    · intro h; simp [intSeed, hatom] at h
-    · intro h; exact absurd h (plain_den_ne_item x wx fx px i' _)
-  · constructor
-    · intro h; rw [hash_singleton k' fk' pk'] at h; simp at h
-    · intro h; exact absurd h (plain_den_ne_value x wx fx px _ _)
-  · constructor
-    · intro h; simp [intSeed, hatom] at h
-    · intro h; exact absurd h.symm (plain_den_ne_item x' wx' fx' px' i _)
-  · rw [intSeed_inj]
-    constructor
-    · rintro ⟨⟨rfl, _⟩, h⟩; rw [h]
-    · intro h; obtain ⟨h1, h2⟩ := vpair_inj h
-      exact ⟨⟨by simpa using h1, rfl⟩, h2⟩
-  · constructor
-    · rintro ⟨h, _⟩
-      rw [hash_singleton k' fk' pk'] at h
-      have h' : atomAt k' [] = .tup [("int", .num i), ("seed", .set [])] := by
-        simpa [intSeed, hatom] using h.symm
-      exact absurd h' (atomAt_ne_int k' fk' pk' [] _ _)
-    · intro h; simp [vpair] at h
-  · constructor
-    · intro h; rw [hash_singleton k fk pk] at h; simp at h
-    · intro h; exact absurd h.symm (plain_den_ne_value x' wx' fx' px' _ _)
-  · constructor
-    · rintro ⟨h, _⟩
-      rw [hash_singleton k fk pk] at h
-      have h' : atomAt k [] = .tup [("int", .num i'), ("seed", .set [])] := by
-        simpa [intSeed, hatom] using h
-      exact absurd h' (atomAt_ne_int k fk pk [] _ _)
-    · intro h; simp [vpair] at h
-  · have hk := H k k' dk dk' wk wk' fk fk' pk pk' [] []
-    rw [hk]
-    constructor
-    · rintro ⟨⟨_, h1⟩, h2⟩; rw [h1, h2]
-    · intro h; obtain ⟨h1, h2⟩ := vpair_inj h
-      exact ⟨⟨rfl, h1⟩, h2⟩
+  obtain ⟨x, dx, wx, fx, e1, e2⟩ := hc
+  obtain ⟨x', dx', wx', fx', e1', e2'⟩ := hc'
+  rw [e1, e1', e2, e2', atom_iff_hash x x' fx rfl fx' rfl]
+  have := H x x' dx dx' wx wx' fx fx' rfl rfl [] []
+  simpa using this
+
+theorem array_item_depth (n : Nat) (vs : List (Option Rep)) (off c : Int) (hd : depth (.array vs off c) < n + 1)
+    (i : Int) (x : Rep) (hx : some x ∈ vs) : depth (.itemT i x) < n := by
+  have := depth_mem_opts vs x hx
+  simp only [depth] at hd ⊢
+  omega
+
+theorem depth_mem_dict2 : ∀ (m : List (Rep × List Rep)) (kv : Rep × List Rep), kv ∈ m →
+    ∀ v, v ∈ kv.2 → depth kv.1 + depth v ≤ depthDict m
+  | [], _, h => by simp at h
+  | (k, vs) :: r, kv, h => by
+    simp only [List.mem_cons] at h
+    rcases h with h | h
+    · subst h
+      intro v hv
+      have := depth_mem_list vs v hv
+      simp [depthDict]; omega
+    · intro v hv
+      have := depth_mem_dict2 r kv h v hv
+      simp [depthDict]; omega
+
+theorem dict_entry_depth (n : Nat) (m : List (Rep × List Rep)) (hd : depth (.dict m) < n + 1)
+    (e : Rep × Rep) (he : e ∈ entries m) : depth (.entryT e.1 e.2) < n := by
+  obtain ⟨kv, hkv, h1, h2⟩ := (mem_entries m e).1 he
+  have := depth_mem_dict2 m kv hkv e.2 h2
+  simp only [depth] at hd ⊢
+  rw [h1]; omega
 
 def strC (off : Int) : List Int → List (V × V)
   | [] => []
@@ -3140,8 +3137,8 @@ def contribs : Rep → List (V × V)
   | .generic xs => xs.map (fun x => (atomOf x, den x))
   | .str s off _ => strC off s
   | .bytes b off => bytesC off b
-  | .array vs off _ => (idxItems off vs).map (fun p => (atomAt p.2 (intSeed p.1 []), vpair "@item" (.num p.1) (den p.2)))
-  | .dict m => (entries m).map (fun e => (atomAt e.2 (hashG true e.1 []), entryDen e))
+  | .array vs off _ => (idxItems off vs).map (fun p => (atomAt (.itemT p.1 p.2) [], vpair "@item" (.num p.1) (den p.2)))
+  | .dict m => (entries m).map (fun e => (atomAt (.entryT e.1 e.2) [], entryDen e))
   | .relation ns rows => (rowTs ns rows).map (fun t => (atomAt t [], den t))
   | _ => []
 
@@ -3251,8 +3248,8 @@ theorem sub_facts (n : Nat) (ih : IHn n) (s : Rep) (k : String) (hd : depth s < 
     · intro c hc
       simp only [contribs, List.mem_singleton] at hc
       subst hc
-      exact ⟨.gtuple [], [], by simpa [depth] using hn, by simp [wf, wfAttrs, namesOf, specialisable],
-        by simp [frag, fragAttrs], rfl, rfl, Or.inl ⟨rfl, by simp [den, denAttrs, V.mkTup]⟩⟩
+      exact ⟨.gtuple [], by simpa [depth] using hn, by simp [wf, wfAttrs, namesOf, specialisable],
+        by simp [frag, fragAttrs], rfl, by simp [den, denAttrs, V.mkTup]⟩
   case generic xs =>
     obtain ⟨fy, ny, _, _, wy, dy, py⟩ := generic_facts n xs hd hw hf
     have ay := atoms_nodup xs fy py ny (fun x hx y hy =>
@@ -3265,7 +3262,7 @@ theorem sub_facts (n : Nat) (ih : IHn n) (s : Rep) (k : String) (hd : depth s < 
     · intro c hc
       simp only [contribs] at hc
       obtain ⟨x, hx, rfl⟩ := List.mem_map.1 hc
-      exact ⟨x, [], dy x hx, wfList_mem xs x wy hx, fragList_mem xs x fy hx, py x hx, rfl, Or.inl ⟨rfl, rfl⟩⟩
+      exact ⟨x, dy x hx, wfList_mem xs x wy hx, fragList_mem xs x fy hx, rfl, rfl⟩
   case str r off holes =>
     refine ⟨?_, ?_, ?_⟩
     · simp only [memXor, contribs]; exact strMemXor_eq_mk r off
@@ -3277,8 +3274,8 @@ theorem sub_facts (n : Nat) (ih : IHn n) (s : Rep) (k : String) (hd : depth s < 
         simp only [wf, Bool.and_eq_true] at hw
         have := List.all_eq_true.1 hw.1.2 ch hm
         simp at this; exact this.2
-      exact ⟨.charT i ch, [], by simpa [depth] using hn, by simp [wf, inRune]; exact ⟨h0, hr⟩, rfl, rfl, rfl,
-        Or.inl ⟨rfl, by simp [den]⟩⟩
+      exact ⟨.charT i ch, by simpa [depth] using hn, by simp [wf, inRune]; exact ⟨h0, hr⟩, rfl, rfl,
+        by simp [den]⟩
   case bytes b off =>
     refine ⟨?_, ?_, ?_⟩
     · simp only [memXor, contribs]; exact bytesMemXor_eq_mk b off
@@ -3289,8 +3286,8 @@ theorem sub_facts (n : Nat) (ih : IHn n) (s : Rep) (k : String) (hd : depth s < 
       have hr : inByte ch = true := by
         simp only [wf, Bool.and_eq_true] at hw
         exact List.all_eq_true.1 hw.2 ch hm
-      exact ⟨.byteT i ch, [], by simpa [depth] using hn, by simpa [wf] using hr, rfl, rfl, rfl,
-        Or.inl ⟨rfl, by simp [den]⟩⟩
+      exact ⟨.byteT i ch, by simpa [depth] using hn, by simpa [wf] using hr, rfl, rfl,
+        by simp [den]⟩
   case array vs off c =>
     obtain ⟨fo, _, _, wo, _, dv⟩ := array_facts n vs off c hd hw hf
     refine ⟨?_, ?_, ?_⟩
@@ -3307,7 +3304,8 @@ theorem sub_facts (n : Nat) (ih : IHn n) (s : Rep) (k : String) (hd : depth s < 
       obtain ⟨p, hp, rfl⟩ := List.mem_map.1 hc
       have hm := idxItems_mem vs off p hp
       obtain ⟨pp, pf⟩ := fragOpts_mem vs p.2 fo hm
-      exact ⟨p.2, intSeed p.1 [], dv p.2 hm, wfOpts_mem vs p.2 wo hm, pf, pp, rfl, Or.inr (Or.inl ⟨p.1, rfl, rfl⟩)⟩
+      exact ⟨.itemT p.1 p.2, array_item_depth n vs off c hd p.1 p.2 hm, by simpa [wf] using wfOpts_mem vs p.2 wo hm,
+        by simp [frag, pf, pp], rfl, by simp [den]⟩
   case dict m =>
     obtain ⟨_, hwd, hkn, hfd, _, F⟩ := dict_facts n m hd hw hf
     have and' := dictAtoms_nodup m [] hfd hwd hkn (dictH_of n ih m m hd hd hw hw hf hf)
@@ -3320,7 +3318,8 @@ theorem sub_facts (n : Nat) (ih : IHn n) (s : Rep) (k : String) (hd : depth s < 
       simp only [contribs] at hc
       obtain ⟨e, he, rfl⟩ := List.mem_map.1 hc
       obtain ⟨⟨a1, a2, a3, a4⟩, ⟨b1, b2, b3, b4⟩⟩ := F e he
-      exact ⟨e.2, hashG true e.1 [], b1, b2, b3, b4, rfl, Or.inr (Or.inr ⟨e.1, a1, a2, a3, a4, rfl, rfl⟩)⟩
+      exact ⟨.entryT e.1 e.2, dict_entry_depth n m hd e he, by simp [wf, a2, b2],
+        by simp [frag, a3, a4, b3, b4], rfl, by simp [den, entryDen]⟩
   case relation ns rows =>
     obtain ⟨_, _, _, _, hdn, _, F⟩ := relation_facts n ns rows hd hw hf
     have tfp : ∀ t, t ∈ rowTs ns rows → frag t = true ∧ plain t = true := by
@@ -3341,7 +3340,7 @@ theorem sub_facts (n : Nat) (ih : IHn n) (s : Rep) (k : String) (hd : depth s < 
       obtain ⟨t, ht, rfl⟩ := List.mem_map.1 hc
       obtain ⟨row, hr, rfl⟩ := List.mem_map.1 ht
       obtain ⟨a, b, c', _⟩ := F row hr
-      exact ⟨rowT ns row, [], a, b, c', rfl, rfl, Or.inl ⟨rfl, rfl⟩⟩
+      exact ⟨rowT ns row, a, b, c', rfl, rfl⟩
 
 /-! ### union sets: the whole set -/
 
@@ -3626,15 +3625,23 @@ theorem union_den_inj (bs bs' : List (String × Rep)) (wa : wf (.union bs) = tru
       rw [hl] at this
       cases this
 
-/-! #### reading the class of a contribution off the seed of its atom -/
+/-! #### a contribution whose atom is the atom of a known value -/
 
 theorem kind1_desc (n : Nat) (x : Rep) (hd : depth x < n) (hw : wf x = true) (hf : frag x = true)
-    (hp : plain x = true) : Desc n (atomAt x [], den x) :=
-  ⟨x, [], hd, hw, hf, hp, rfl, Or.inl ⟨rfl, rfl⟩⟩
+    (_hp : plain x = true) : Desc n (atomAt x [], den x) :=
+  ⟨x, hd, hw, hf, rfl, rfl⟩
 
 theorem desc_seed_nil (n : Nat) (H : HashIH n) (c : V × V) (hc : Desc n c) (x : Rep) (hd : depth x < n)
     (hw : wf x = true) (hf : frag x = true) (hp : plain x = true) (e : c.1 = atomAt x []) : c.2 = den x :=
   (desc_iff n H c (atomAt x [], den x) hc (kind1_desc n x hd hw hf hp)).1 e
+
+/-- the atom of a contribution under any seed: the seed is 0 and the member has the value's denotation -/
+theorem desc_at (n : Nat) (H : HashIH n) (c : V × V) (hc : Desc n c) (x : Rep) (hd : depth x < n)
+    (hw : wf x = true) (hf : frag x = true) (s : HV) (e : c.1 = atomAt x s) : s = [] ∧ c.2 = den x := by
+  obtain ⟨y, _, _, fy, e1, _⟩ := hc
+  have hs : [] = s := atomAt_seed_inj y x fy rfl hf rfl _ _ (e1.symm.trans e)
+  subst hs
+  exact ⟨rfl, desc_seed_nil n H c ⟨y, by assumption, by assumption, fy, e1, by assumption⟩ x hd hw hf rfl e⟩
 
 theorem hashG_ne_nil (k : Rep) (hf : frag k = true) (hp : plain k = true) (s : HV) : hashG true k s ≠ [] := by
   rw [hash_singleton k hf hp]; simp
@@ -3647,49 +3654,9 @@ theorem intSeed_ne_hash (i : Int) (s s' : HV) (k : Rep) (hf : frag k = true) (hp
     simpa [intSeed, hatom] using h.symm
   exact atomAt_ne_int k hf hp s' _ _ h'
 
-theorem desc_seed_int (n : Nat) (c : V × V) (hc : Desc n c) (x : Rep) (hf : frag x = true) (hp : plain x = true)
-    (j : Int) (s : HV) (e : c.1 = atomAt x (intSeed j s)) : bucketV c.2 = .i := by
-  obtain ⟨y, sd, _, _, fy, py, e1, k1⟩ := hc
-  have hs : sd = intSeed j s := atomAt_seed_inj y x fy py hf hp _ _ (e1.symm.trans e)
-  rcases k1 with ⟨s0, _⟩ | ⟨i, _, d0⟩ | ⟨k, _, _, fk, pk, s0, _⟩
-  · rw [s0] at hs; simp [intSeed, hatom] at hs
-  · rw [d0]; exact bucketV_item _ _
-  · rw [s0] at hs; exact absurd hs.symm (intSeed_ne_hash j s [] k fk pk)
-
-theorem desc_seed_hash (n : Nat) (c : V × V) (hc : Desc n c) (x : Rep) (hf : frag x = true) (hp : plain x = true)
-    (k' : Rep) (fk' : frag k' = true) (pk' : plain k' = true) (s : HV) (e : c.1 = atomAt x (hashG true k' s)) :
-    bucketV c.2 = .e := by
-  obtain ⟨y, sd, _, _, fy, py, e1, k1⟩ := hc
-  have hs : sd = hashG true k' s := atomAt_seed_inj y x fy py hf hp _ _ (e1.symm.trans e)
-  rcases k1 with ⟨s0, _⟩ | ⟨i, s0, _⟩ | ⟨k, _, _, _, _, _, d0⟩
-  · rw [s0] at hs; exact absurd hs.symm (hashG_ne_nil k' fk' pk' s)
-  · rw [s0] at hs; exact absurd hs (intSeed_ne_hash i [] s k' fk' pk')
-  · rw [d0]; exact bucketV_value _ _
-
-/-- two contributions of different classes whose atoms carry the same seed: the seed is 0 -/
-theorem desc_same_seed (n : Nat) (c1 c2 : V × V) (h1 : Desc n c1) (h2 : Desc n c2) (x1 x2 : Rep)
-    (f1 : frag x1 = true) (p1 : plain x1 = true) (f2 : frag x2 = true) (p2 : plain x2 = true) (sd : HV)
-    (e1 : c1.1 = atomAt x1 sd) (e2 : c2.1 = atomAt x2 sd) (hne : bucketV c1.2 ≠ bucketV c2.2) : sd = [] := by
-  obtain ⟨y1, s1, _, _, fy1, py1, a1, k1⟩ := h1
-  obtain ⟨y2, s2, _, _, fy2, py2, a2, k2⟩ := h2
-  have hs1 : s1 = sd := atomAt_seed_inj y1 x1 fy1 py1 f1 p1 _ _ (a1.symm.trans e1)
-  have hs2 : s2 = sd := atomAt_seed_inj y2 x2 fy2 py2 f2 p2 _ _ (a2.symm.trans e2)
-  rcases k1 with ⟨s0, _⟩ | ⟨i, s0, d0⟩ | ⟨k, _, _, fk, pk, s0, d0⟩
-  · rw [← hs1, s0]
-  · rcases k2 with ⟨s0', _⟩ | ⟨i', s0', d0'⟩ | ⟨k', _, _, fk', pk', s0', d0'⟩
-    · rw [← hs2, s0']
-    · rw [d0, d0', bucketV_item, bucketV_item] at hne; exact absurd rfl hne
-    · rw [← hs1, s0] at hs2; rw [s0'] at hs2
-      exact absurd hs2.symm (intSeed_ne_hash i [] [] k' fk' pk')
-  · rcases k2 with ⟨s0', _⟩ | ⟨i', s0', d0'⟩ | ⟨k', _, _, fk', pk', s0', d0'⟩
-    · rw [← hs2, s0']
-    · rw [← hs1, s0] at hs2; rw [s0'] at hs2
-      exact absurd hs2 (intSeed_ne_hash i' [] [] k fk pk)
-    · rw [d0, d0', bucketV_value, bucketV_value] at hne; exact absurd rfl hne
-
 theorem desc_atom (n : Nat) (c : V × V) (hc : Desc n c) : ∃ x sd, frag x = true ∧ plain x = true ∧ c.1 = atomAt x sd := by
-  obtain ⟨y, sd, _, _, fy, py, e1, _⟩ := hc
-  exact ⟨y, sd, fy, py, e1⟩
+  obtain ⟨y, _, _, fy, e1, _⟩ := hc
+  exact ⟨y, [], fy, rfl, e1⟩
 
 theorem main_frag : ∀ (n : Nat) (a b : Rep), depth a < n → depth b < n → wf a = true → wf b = true →
     frag a = true → frag b = true → MainAt a b := by
@@ -3712,12 +3679,138 @@ theorem main_frag : ∀ (n : Nat) (a b : Rep), depth a < n → depth b < n → w
     have dictH := dictH_of n ih
     have relH := relH_of n ih
     have rowH := rowH_of n ih
+    -- equal atoms of two values below the bound: same seed, same denotation
+    have atomDen : ∀ (x y : Rep) (σ σ' : HV), depth x < n → depth y < n → wf x = true → wf y = true →
+        frag x = true → frag y = true → atomAt x σ = atomAt y σ' → σ = σ' ∧ den x = den y := by
+      intro x y σ σ' dx dy wx wy fx fy e
+      exact (ihH x y dx dy wx wy fx fy rfl rfl σ σ').1
+        (by rw [hash_singleton x fx rfl, hash_singleton y fy rfl, e])
+    -- a finished single atom under a derived seed (the hash of an item or entry tuple) differs from the hash of
+    -- every value of another type
+    have thrNe : ∀ (x : Rep) (sd s : HV) (b : Rep), frag x = true → sd ≠ [] → sd ≠ s →
+        depth b < n + 1 → wf b = true → frag b = true →
+        (∀ j y, b ≠ .itemT j y) → (∀ k v, b ≠ .entryT k v) →
+        ∀ s' : HV, hatom "fin" (.set [atomAt x sd]) s ≠ hashG true b s' := by
+      intro x sd s b fx h0 hs db wb' fb' hni hne s' h
+      have seedOf : ∀ (y : Rep) (σ : HV), frag y = true → atomAt x sd = atomAt y σ → sd = σ :=
+        fun y σ fy e => atomAt_seed_inj x y fx rfl fy rfl _ _ e
+      cases b
+      case num => simp [hashG, hatom] at h
+      case charT => simp [hashG, hatom] at h
+      case byteT => simp [hashG, hatom] at h
+      case str => simp [hashG, hatom] at h
+      case bytes => simp [hashG, hatom] at h
+      case itemT j y => exact hni j y rfl
+      case entryT k v => exact hne k v rfl
+      case empty => simp [hashG, hfin, hatom] at h
+      case true_ =>
+        simp [hashG, hfin, hatom] at h
+        have : atomAt x sd = atomAt (.gtuple []) [] := by
+          rw [h.1]; simp [atomAt, hashG, hfin, hatom, xorAttrs, hxor_nil_right]
+        exact h0 (seedOf (.gtuple []) [] (by simp [frag, fragAttrs]) this)
+      case gtuple as' =>
+        obtain ⟨nb, _, fbs, _⟩ := gtuple_facts n as' db wb' (by simpa [frag] using fb')
+        simp only [hashG, hfin, hatom, if_true] at h
+        simp at h
+        have := gtuple_payload_mem as' s' nb fbs
+        rw [show hatom "mapC" (V.set []) s' = [V.tup [("mapC", V.set []), ("seed", V.set s')]] from rfl, ← h.1] at this
+        simp [mapC] at this
+        exact atomAt_ne_mapC x fx rfl _ _ _ this.symm
+      case generic ys =>
+        obtain ⟨fy, ny, _, _, wy, dy, py⟩ := generic_facts n ys db wb' (by simpa [frag] using fb')
+        have ay := atoms_nodup ys fy py ny (fun x hx y hy =>
+          memH ys [] dy (by simp) wy rfl fy rfl py (by simp) x (by simp [hx]) y (by simp [hy]))
+        simp [hashG, hfin, hatom] at h
+        have hm : atomAt x sd ∈ xorList true ys := by rw [← h.1]; simp
+        obtain ⟨y, hy, e⟩ := xorList_mem_atom ys fy py ay _ hm
+        exact h0 (seedOf y [] (fragList_mem ys y fy hy) e.symm)
+      case array vs' off' c' =>
+        obtain ⟨fo, _, _, _, _, _⟩ := array_facts n vs' off' c' db wb' (by simpa [frag] using fb')
+        simp [hashG, hfin, hatom] at h
+        have hm : atomAt x sd ∈ xorOpts true off' vs' s' := by rw [← h.1]; simp
+        rw [xorOpts_eq_mk off' vs' s' fo, mem_mk] at hm
+        obtain ⟨p, hp, e⟩ := List.mem_map.1 hm
+        obtain ⟨pp, pf⟩ := fragOpts_mem vs' p.2 fo (idxItems_mem vs' off' p hp)
+        have := seedOf (.itemT p.1 p.2) s' (by simp [frag, pf, pp]) e.symm
+        exact hs (this.trans h.2.symm)
+      case dict m' =>
+        obtain ⟨_, hwd, hk, hfd, _, Fd⟩ := dict_facts n m' db wb' (by simpa [frag] using fb')
+        have and' := dictAtoms_nodup m' s' hfd hwd hk
+          (dictH m' m' db db wb' wb' (by simpa [frag] using fb') (by simpa [frag] using fb'))
+        simp [hashG, hfin, hatom] at h
+        have hm : atomAt x sd ∈ xorDict true m' s' := by rw [← h.1]; simp
+        rw [xorDict_eq_mk m' s' hfd and', mem_mk] at hm
+        obtain ⟨e, he, e'⟩ := List.mem_map.1 hm
+        obtain ⟨⟨_, _, fk, _⟩, ⟨_, _, fv, _⟩⟩ := Fd e he
+        have := seedOf (.entryT e.1 e.2) s' (by simp [frag, fk, fv, plain]) e'.symm
+        exact hs (this.trans h.2.symm)
+      case relation ns' rows' =>
+        have fr : frag (.relation ns' rows') = true := by simpa [frag] using fb'
+        obtain ⟨_, _, _, _, hdn, _, F⟩ := relation_facts n ns' rows' db wb' fr
+        have tfp : ∀ t, t ∈ rowTs ns' rows' → frag t = true ∧ plain t = true := by
+          intro t ht
+          obtain ⟨row, hr, rfl⟩ := List.mem_map.1 ht
+          exact ⟨(F row hr).2.2.1, rfl⟩
+        have RH := rowH ns' ns' rows' rows' db db wb' wb' fr fr
+        have an := seeded_nodup (rowTs ns' rows') s' tfp (by rw [← denRows_rowTs]; exact hdn)
+          (fun x hx y hy => by have := RH x (by simp [hx]) y (by simp [hy]) s' s'; simpa using this)
+        simp [hashG, hfin, hatom] at h
+        have hm : atomAt x sd ∈ xorRows true ns' rows' s' := by rw [← h.1]; simp
+        rw [xorRows_eq_mk ns' rows' s' (fun row hr => (F row hr).2.2.1) an, mem_mk] at hm
+        obtain ⟨t, ht, e⟩ := List.mem_map.1 hm
+        have := seedOf t s' (tfp t ht).1 e.symm
+        exact hs (this.trans h.2.symm)
+      case union bs' =>
+        obtain ⟨A, _, C, _⟩ := union_contribs n ih bs' db wb' fb'
+        simp [hashG, hfin, hatom] at h
+        have hm : atomAt x sd ∈ xorBuckets true bs' := by rw [← h.1]; simp
+        rw [A, mem_mk] at hm
+        obtain ⟨c, hc, e⟩ := List.mem_map.1 hm
+        obtain ⟨y, _, _, fy, e1, _⟩ := C c hc
+        exact h0 (seedOf y [] fy (e.symm.trans e1))
+    -- the hash of an item tuple / entry tuple differs from the hash of every value of another type
+    have itemNe : ∀ (j : Int) (y b : Rep), frag (.itemT j y) = true → depth b < n + 1 → wf b = true → frag b = true →
+        (∀ j' y', b ≠ .itemT j' y') → ∀ s s' : HV, hashG true (.itemT j y) s ≠ hashG true b s' := by
+      intro j y b fy db wb' fb' hni s s' h
+      have fy' : frag y = true := by simpa [frag, plain] using fy
+      have hl : hashG true (.itemT j y) s = hatom "fin" (.set [atomAt y (intSeed j s)]) s := by
+        simp [hashG, tfin, intSeed, hash_singleton y fy' rfl]
+      rw [hl] at h
+      by_cases hbe : ∃ k v, b = .entryT k v
+      · obtain ⟨k, v, rfl⟩ := hbe
+        have fkv : frag k = true ∧ frag v = true := by simpa [frag, plain] using fb'
+        have hr : hashG true (.entryT k v) s' = hatom "fin" (.set [atomAt v (hashG true k s')]) s' := by
+          simp [hashG, tfin, hash_singleton v fkv.2 rfl]
+        rw [hr] at h
+        simp [hatom] at h
+        have := atomAt_seed_inj y v fy' rfl fkv.2 rfl _ _ h.1
+        exact intSeed_ne_hash j s s' k fkv.1 rfl this
+      · exact thrNe y (intSeed j s) s b fy' (by simp [intSeed, hatom]) (seed_acyclic _ _ _) db wb' fb' hni
+          (fun k v e => hbe ⟨k, v, e⟩) s' h
+    have entryNe : ∀ (k v b : Rep), depth (.entryT k v) < n + 1 → wf (.entryT k v) = true →
+        frag (.entryT k v) = true → depth b < n + 1 → wf b = true → frag b = true →
+        (∀ k' v', b ≠ .entryT k' v') → ∀ s s' : HV, hashG true (.entryT k v) s ≠ hashG true b s' := by
+      intro k v b dkv wkv fkv db wb' fb' hne s s' h
+      by_cases hbi : ∃ j y, b = .itemT j y
+      · obtain ⟨j, y, rfl⟩ := hbi
+        exact itemNe j y (.entryT k v) fb' dkv wkv fkv (by intro a b e; cases e) s' s h.symm
+      · have fkv' : frag k = true ∧ frag v = true := by simpa [frag, plain] using fkv
+        have hl : hashG true (.entryT k v) s = hatom "fin" (.set [atomAt v (hashG true k s)]) s := by
+          simp [hashG, tfin, hash_singleton v fkv'.2 rfl]
+        rw [hl] at h
+        have hne0 : hashG true k s ≠ [] := hashG_ne_nil k fkv'.1 rfl s
+        have hnes : hashG true k s ≠ s := by
+          rw [hash_singleton k fkv'.1 rfl]
+          obtain ⟨t, q, et⟩ := atomAt_seed k fkv'.1 rfl s
+          rw [et]; exact single_acyclic _ _ _
+        exact thrNe v (hashG true k s) s b fkv'.2 hne0 hnes db wb' fb' (fun j y e => hbi ⟨j, y, e⟩) hne s' h
     -- the hash of a union set differs from the hash of every other plain value
     have unionNe : ∀ (bs : List (String × Rep)) (b : Rep), depth (.union bs) < n + 1 → depth b < n + 1 →
         wf (.union bs) = true → wf b = true → frag (.union bs) = true → frag b = true →
         (∀ bs', b ≠ .union bs') → plain b = true →
         ∀ s s' : HV, hashG true (.union bs) s ≠ hashG true b s' := by
       intro bs b du db wu wb' fu fb' hnu pb s s' h
+      have h0 := h
       obtain ⟨A, _, C, c1, c2, hc1, hc2, hne⟩ := union_contribs n ih bs du wu fu
       have hn0 : 0 < n := (union_facts n ih bs du wu fu).1
       simp only [hashG, hfin, if_true] at h
@@ -3734,6 +3827,8 @@ theorem main_frag : ∀ (n : Nat) (a b : Rep), depth a < n → depth b < n → w
       case str r off hh => simp [hashG, hatom] at h
       case bytes r off => simp [hashG, hatom] at h
       case union bs' => exact hnu bs' rfl
+      case itemT j y => exact itemNe j y (.union bs) fb' du wu fu (by intro a b e; cases e) s' s h0.symm
+      case entryT k v => exact entryNe k v (.union bs) db wb' fb' du wu fu (by intro a b e; cases e) s' s h0.symm
       case empty =>
         simp [hashG, hfin, hatom] at h
         have := mem c1 hc1
@@ -3776,15 +3871,19 @@ theorem main_frag : ∀ (n : Nat) (a b : Rep), depth a < n → depth b < n → w
         rw [desc_seed_nil n ihH c (C c hc) y (dy y hy) (wfList_mem ys y wy hy) (fragList_mem ys y fy hy) (py y hy) e.symm]
         exact bucketV_genericMember y (hgm y hy)
       case array vs' off' c' =>
-        obtain ⟨fo, _, _, _, _, _⟩ := array_facts n vs' off' c' db wb' (by simpa [frag] using fb')
+        obtain ⟨fo, _, _, wo, _, _⟩ := array_facts n vs' off' c' db wb' (by simpa [frag] using fb')
         simp [hashG, hfin, hatom] at h
         apply uni .i
         intro c hc
         have hm := mem c hc
         rw [h.1, xorOpts_eq_mk off' vs' s' fo, mem_mk] at hm
         obtain ⟨p, hp, e⟩ := List.mem_map.1 hm
-        obtain ⟨pp, pf⟩ := fragOpts_mem vs' p.2 fo (idxItems_mem vs' off' p hp)
-        exact desc_seed_int n c (C c hc) p.2 pf pp p.1 s' e.symm
+        have hm' := idxItems_mem vs' off' p hp
+        obtain ⟨pp, pf⟩ := fragOpts_mem vs' p.2 fo hm'
+        rw [(desc_at n ihH c (C c hc) (.itemT p.1 p.2) (array_item_depth n vs' off' c' db p.1 p.2 hm')
+          (by simpa [wf] using wfOpts_mem vs' p.2 wo hm') (by simp [frag, pf, pp]) s' e.symm).2]
+        simp only [den]
+        exact bucketV_item _ _
       case dict m' =>
         obtain ⟨_, hwd, hk, hfd, _, Fd⟩ := dict_facts n m' db wb' (by simpa [frag] using fb')
         have and' := dictAtoms_nodup m' s' hfd hwd hk
@@ -3795,8 +3894,11 @@ theorem main_frag : ∀ (n : Nat) (a b : Rep), depth a < n → depth b < n → w
         have hm := mem c hc
         rw [h.1, xorDict_eq_mk m' s' hfd and', mem_mk] at hm
         obtain ⟨e, he, e'⟩ := List.mem_map.1 hm
-        obtain ⟨⟨_, _, fk, pk⟩, ⟨_, _, fv, pv⟩⟩ := Fd e he
-        exact desc_seed_hash n c (C c hc) e.2 fv pv e.1 fk pk s' e'.symm
+        obtain ⟨⟨_, wk, fk, _⟩, ⟨_, wv, fv, _⟩⟩ := Fd e he
+        rw [(desc_at n ihH c (C c hc) (.entryT e.1 e.2) (dict_entry_depth n m' db e he)
+          (by simp [wf, wk, wv]) (by simp [frag, plain, fk, fv]) s' e'.symm).2]
+        simp only [den]
+        exact bucketV_value _ _
       case relation ns' rows' =>
         have fr : frag (.relation ns' rows') = true := by simpa [frag] using fb'
         obtain ⟨hnne, hnnd, _, hwr, hdn, _, F⟩ := relation_facts n ns' rows' db wb' fr
@@ -3816,15 +3918,10 @@ theorem main_frag : ∀ (n : Nat) (a b : Rep), depth a < n → depth b < n → w
           obtain ⟨t, ht, e⟩ := List.mem_map.1 hm
           obtain ⟨r, hr, rfl⟩ := List.mem_map.1 ht
           exact ⟨r, hr, e.symm⟩
-        obtain ⟨r1, hr1, e1⟩ := row c1 hc1
-        obtain ⟨r2, hr2, e2⟩ := row c2 hc2
-        have hs : s' = [] := desc_same_seed n c1 c2 (C c1 hc1) (C c2 hc2) (rowT ns' r1) (rowT ns' r2)
-          (F r1 hr1).2.2.1 rfl (F r2 hr2).2.2.1 rfl s' e1 e2 hne
         apply uni (.r (headingOf ns'))
         intro c hc
         obtain ⟨r, hr, e⟩ := row c hc
-        rw [hs] at e
-        rw [desc_seed_nil n ihH c (C c hc) (rowT ns' r) (F r hr).1 (F r hr).2.1 (F r hr).2.2.1 rfl e]
+        rw [(desc_at n ihH c (C c hc) (rowT ns' r) (F r hr).1 (F r hr).2.1 (F r hr).2.2.1 s' e).2]
         exact bucketV_rowT ns' rows' r hnnd hnne hwr hr
     -- the hash of a relation differs from the hash of every other plain value
     have relNe : ∀ (ns : List String) (rows : List (List Rep)) (b : Rep), depth (.relation ns rows) < n + 1 →
@@ -3832,6 +3929,7 @@ theorem main_frag : ∀ (n : Nat) (a b : Rep), depth a < n → depth b < n → w
         frag b = true → (∀ ns' rows', b ≠ .relation ns' rows') → plain b = true →
         ∀ s s' : HV, hashG true (.relation ns rows) s ≠ hashG true b s' := by
       intro ns rows b dr db wr wb' fr fb' hnr pb s s' h
+      have h0 := h
       obtain ⟨hnne, hnnd, hrne, hwr, hdn, _, F⟩ := relation_facts n ns rows dr wr fr
       have tfp : ∀ t, t ∈ rowTs ns rows → frag t = true ∧ plain t = true := by
         intro t ht
@@ -3858,6 +3956,11 @@ theorem main_frag : ∀ (n : Nat) (a b : Rep), depth a < n → depth b < n → w
       case str r off hh => simp [hashG, hatom] at h
       case bytes r off => simp [hashG, hatom] at h
       case relation ns' rows' => exact hnr ns' rows' rfl
+      case itemT j y =>
+        exact itemNe j y (.relation ns rows) (by simp [frag, fb'.1, fb'.2]) dr wr fr (by intro a b e; cases e) s' s h0.symm
+      case entryT k v =>
+        exact entryNe k v (.relation ns rows) db wb' (by simp [frag, fb'.1.1.1, fb'.1.1.2, fb'.1.2, fb'.2]) dr wr fr
+          (by intro a b e; cases e) s' s h0.symm
       case union bs' =>
         exact unionNe bs' (.relation ns rows) db dr wb' wr (by simpa [frag] using fb') fr (by intro a e; cases e) rfl s' s
           (by simp only [hashG, hfin, if_true]; rw [xorRows_eq_mk ns rows s (fun row hr => (F row hr).2.2.1) an]; exact h.symm)
@@ -3904,31 +4007,37 @@ theorem main_frag : ∀ (n : Nat) (a b : Rep), depth a < n → depth b < n → w
         rw [← this.2, bucketV_genericMember y (hgm y hy)] at hbk
         cases hbk
       case array vs' off' c' =>
-        obtain ⟨fo, hh, _, _, _, _⟩ := array_facts n vs' off' c' db wb' (by simpa [frag] using fb')
+        obtain ⟨fo, hh, _, wo, _, _⟩ := array_facts n vs' off' c' db wb' (by simpa [frag] using fb')
         simp [hashG, hfin, hatom] at h
         rw [h.1, xorOpts_eq_mk off' vs' s' fo, mem_mk] at hmem
         obtain ⟨p, hp, e⟩ := List.mem_map.1 hmem
-        obtain ⟨pp, pf⟩ := fragOpts_mem vs' p.2 fo (idxItems_mem vs' off' p hp)
-        have := atomAt_seed_inj p.2 (rowT ns r0) pf pp f0 rfl _ _ e
-        rw [← h.2] at this
-        exact seed_acyclic _ _ _ this
+        have hm' := idxItems_mem vs' off' p hp
+        obtain ⟨pp, pf⟩ := fragOpts_mem vs' p.2 fo hm'
+        have := (atomDen (.itemT p.1 p.2) (rowT ns r0) s' s (array_item_depth n vs' off' c' db p.1 p.2 hm') d0
+          (by simpa [wf] using wfOpts_mem vs' p.2 wo hm') w0 (by simp [frag, pf, pp]) f0 e).2
+        rw [← this] at hbk
+        simp only [den] at hbk
+        rw [bucketV_item] at hbk
+        cases hbk
       case dict m' =>
         obtain ⟨_, hwd, hk, hfd, hen, Fd⟩ := dict_facts n m' db wb' (by simpa [frag] using fb')
         have and' := dictAtoms_nodup m' s' hfd hwd hk (dictH m' m' db db wb' wb' (by simpa [frag] using fb') (by simpa [frag] using fb'))
         simp [hashG, hfin, hatom] at h
         rw [h.1, xorDict_eq_mk m' s' hfd and', mem_mk] at hmem
         obtain ⟨e, he, e'⟩ := List.mem_map.1 hmem
-        obtain ⟨⟨_, _, fk, pk⟩, ⟨_, _, fv, pv⟩⟩ := Fd e he
-        have := atomAt_seed_inj e.2 (rowT ns r0) fv pv f0 rfl _ _ e'
-        rw [hash_singleton e.1 fk pk, ← h.2] at this
-        obtain ⟨t, q, et⟩ := atomAt_seed e.1 fk pk s
-        rw [et] at this
-        exact single_acyclic _ _ _ this
+        obtain ⟨⟨_, wk, fk, _⟩, ⟨_, wv, fv, _⟩⟩ := Fd e he
+        have := (atomDen (.entryT e.1 e.2) (rowT ns r0) s' s (dict_entry_depth n m' db e he) d0
+          (by simp [wf, wk, wv]) w0 (by simp [frag, plain, fk, fv]) f0 e').2
+        rw [← this] at hbk
+        simp only [den] at hbk
+        rw [bucketV_value] at hbk
+        cases hbk
     -- the hash of a dictionary differs from the hash of every other plain value
     have dictNe : ∀ (m : List (Rep × List Rep)) (b : Rep), depth (.dict m) < n + 1 → depth b < n + 1 →
         wf (.dict m) = true → wf b = true → frag (.dict m) = true → frag b = true → (∀ m', b ≠ .dict m') →
         plain b = true → ∀ s s' : HV, hashG true (.dict m) s ≠ hashG true b s' := by
       intro m b dm db wm wb' fm fb' hnd pb s s' h
+      have h0 := h
       obtain ⟨_, hwd, hk, hfd, hen, F⟩ := dict_facts n m dm wm fm
       have an := dictAtoms_nodup m s hfd hwd hk (dictH m m dm dm wm wm fm fm)
       -- an entry and its atom
@@ -3936,10 +4045,14 @@ theorem main_frag : ∀ (n : Nat) (a b : Rep), depth a < n → depth b < n → w
         cases hh : entries m with
         | nil => exact absurd hh hen
         | cons e r => exact ⟨e, by simp⟩
-      have hmem : atomAt e0.2 (hashG true e0.1 s) ∈ mk (dictAtoms m s) := by
+      have hmem : atomAt (.entryT e0.1 e0.2) s ∈ mk (dictAtoms m s) := by
         rw [mem_mk]; exact List.mem_map.2 ⟨e0, he0, rfl⟩
-      obtain ⟨⟨_, _, fk0, pk0⟩, ⟨_, _, fv0, pv0⟩⟩ := F e0 he0
-      have hseed : hashG true e0.1 s ≠ [] := by rw [hash_singleton e0.1 fk0 pk0]; simp
+      obtain ⟨⟨_, wk0, fk0, pk0⟩, ⟨_, wv0, fv0, pv0⟩⟩ := F e0 he0
+      have dE0 := dict_entry_depth n m dm e0 he0
+      have wE0 : wf (.entryT e0.1 e0.2) = true := by simp [wf, wk0, wv0]
+      have fE0 : frag (.entryT e0.1 e0.2) = true := by simp [frag, plain, fk0, fv0]
+      have hbk : bucketV (den (.entryT e0.1 e0.2)) = .e := by simp only [den]; exact bucketV_value _ _
+      have hn0 : 0 < n := by omega
       simp only [hashG, hfin, if_true] at h
       rw [xorDict_eq_mk m s hfd an] at h
       cases b <;> simp [frag] at fb' <;> simp [plain] at pb
@@ -3949,6 +4062,11 @@ theorem main_frag : ∀ (n : Nat) (a b : Rep), depth a < n → depth b < n → w
       case str r off hh => simp [hashG, hatom] at h
       case bytes r off => simp [hashG, hatom] at h
       case dict m' => exact hnd m' rfl
+      case itemT j y =>
+        exact itemNe j y (.dict m) (by simp [frag, fb'.1, fb'.2]) dm wm fm (by intro a b e; cases e) s' s h0.symm
+      case entryT k v =>
+        exact entryNe k v (.dict m) db wb' (by simp [frag, fb'.1.1.1, fb'.1.1.2, fb'.1.2, fb'.2]) dm wm fm
+          (by intro a b e; cases e) s' s h0.symm
       case union bs' =>
         exact unionNe bs' (.dict m) db dm wb' wm (by simpa [frag] using fb') fm (by intro a e; cases e) rfl s' s
           (by simp only [hashG, hfin, if_true]; rw [xorDict_eq_mk m s hfd an]; exact h.symm)
@@ -3961,10 +4079,12 @@ theorem main_frag : ∀ (n : Nat) (a b : Rep), depth a < n → depth b < n → w
         simp [hashG, hfin, hatom] at h
         rw [h.1] at hmem
         simp at hmem
-        obtain ⟨t, q, e⟩ := atomAt_seed e0.2 fv0 pv0 (hashG true e0.1 s)
-        rw [e] at hmem
-        simp at hmem
-        exact hseed hmem.2
+        have hu : atomAt (.entryT e0.1 e0.2) s = atomAt (.gtuple []) [] := by
+          rw [hmem]; simp [atomAt, hashG, hfin, hatom, xorAttrs, hxor_nil_right]
+        have := (atomDen _ _ _ _ dE0 (by simpa [depth] using hn0) wE0
+          (by simp [wf, wfAttrs, namesOf, specialisable]) fE0 (by simp [frag, fragAttrs]) hu).2
+        rw [this] at hbk
+        simp [den, denAttrs, V.mkTup, bucketV_unit] at hbk
       case gtuple bs =>
         obtain ⟨nb, _, fbs, _⟩ := gtuple_facts n bs db wb' (by simpa [frag] using fb')
         simp only [hashG, hfin, hatom, if_true] at h
@@ -3973,30 +4093,113 @@ theorem main_frag : ∀ (n : Nat) (a b : Rep), depth a < n → depth b < n → w
         rw [show hatom "mapC" (V.set []) s' = [V.tup [("mapC", V.set []), ("seed", V.set s')]] from rfl, ← h.1,
           mem_mk] at this
         obtain ⟨e, he, e'⟩ := List.mem_map.1 this
-        obtain ⟨_, ⟨_, _, fv, pv⟩⟩ := F e he
-        exact atomAt_ne_mapC e.2 fv pv _ _ _ e'
+        obtain ⟨⟨_, _, fk, _⟩, ⟨_, _, fv, _⟩⟩ := F e he
+        exact atomAt_ne_mapC (.entryT e.1 e.2) (by simp [frag, plain, fk, fv]) rfl _ _ _ e'
       case generic ys =>
         obtain ⟨fy, ny, ney, _, wy, dy, py⟩ := generic_facts n ys db wb' (by simpa [frag] using fb')
         have ay := atoms_nodup ys fy py ny (fun x hx y hy =>
           memH ys [] dy (by simp) wy rfl fy rfl py (by simp) x (by simp [hx]) y (by simp [hy]))
+        have hgm : ∀ y, y ∈ ys → genericMember y = true := by
+          simp only [wf, Bool.and_eq_true] at wb'
+          exact fun y hy => List.all_eq_true.1 wb'.1.1.2 y hy
         simp [hashG, hfin, hatom] at h
         rw [h.1] at hmem
         obtain ⟨y, hy, e⟩ := xorList_mem_atom ys fy py ay _ hmem
-        have := atomAt_seed_inj y e0.2 (fragList_mem ys y fy hy) (py y hy) fv0 pv0 _ _ e
-        exact hseed this.symm
+        have := (atomDen y _ [] s (dy y hy) dE0 (wfList_mem ys y wy hy) wE0 (fragList_mem ys y fy hy) fE0 e).2
+        rw [← this, bucketV_genericMember y (hgm y hy)] at hbk
+        cases hbk
       case array vs' off' c' =>
-        obtain ⟨fo, hh, _, _, _, _⟩ := array_facts n vs' off' c' db wb' (by simpa [frag] using fb')
+        obtain ⟨fo, hh, _, wo, _, _⟩ := array_facts n vs' off' c' db wb' (by simpa [frag] using fb')
         simp [hashG, hfin, hatom] at h
         rw [h.1, xorOpts_eq_mk off' vs' s' fo, mem_mk] at hmem
         obtain ⟨p, hp, e⟩ := List.mem_map.1 hmem
-        obtain ⟨pp, pf⟩ := fragOpts_mem vs' p.2 fo (idxItems_mem vs' off' p hp)
-        have := atomAt_seed_inj p.2 e0.2 pf pp fv0 pv0 _ _ e
-        rw [hash_singleton e0.1 fk0 pk0] at this
-        simp [intSeed, hatom] at this
-        exact atomAt_ne_int e0.1 fk0 pk0 s _ _ this.symm
+        have hm' := idxItems_mem vs' off' p hp
+        obtain ⟨pp, pf⟩ := fragOpts_mem vs' p.2 fo hm'
+        have := (atomDen (.itemT p.1 p.2) _ s' s (array_item_depth n vs' off' c' db p.1 p.2 hm') dE0
+          (by simpa [wf] using wfOpts_mem vs' p.2 wo hm') wE0 (by simp [frag, pf, pp]) fE0 e).2
+        rw [← this] at hbk
+        simp only [den] at hbk
+        rw [bucketV_item] at hbk
+        cases hbk
       case relation ns' rows' =>
         exact relNe ns' rows' (.dict m) db dm wb' wm (by simpa [frag] using fb') fm (by intro a b e; cases e) rfl s' s
           (by simp only [hashG, hfin, if_true]; rw [xorDict_eq_mk m s hfd an]; exact h.symm)
+    -- the hash of an array differs from the hash of every value of another type
+    have arrNe : ∀ (vs : List (Option Rep)) (off c : Int) (b : Rep), depth (.array vs off c) < n + 1 →
+        depth b < n + 1 → wf (.array vs off c) = true → wf b = true → frag (.array vs off c) = true →
+        frag b = true → (∀ vs' off' c', b ≠ .array vs' off' c') → plain b = true →
+        ∀ s s' : HV, hashG true (.array vs off c) s ≠ hashG true b s' := by
+      intro vs off c b da db wa' wb' fa' fb' hna pb s s' h
+      have h0 := h
+      obtain ⟨fo, hh, _, wo, _, _⟩ := array_facts n vs off c da wa' fa'
+      obtain ⟨p, hp⟩ : ∃ p, p ∈ idxItems off vs := by
+        cases hi : idxItems off vs with
+        | nil => exact absurd hi (idxItems_ne_nil off vs hh)
+        | cons p r => exact ⟨p, by simp⟩
+      have hm' := idxItems_mem vs off p hp
+      obtain ⟨pp, pf⟩ := fragOpts_mem vs p.2 fo hm'
+      have hmem : atomAt (.itemT p.1 p.2) s ∈ mk (arrAtoms off vs s) := by
+        rw [mem_mk]; exact List.mem_map.2 ⟨p, hp, rfl⟩
+      have dE0 := array_item_depth n vs off c da p.1 p.2 hm'
+      have wE0 : wf (.itemT p.1 p.2) = true := by simpa [wf] using wfOpts_mem vs p.2 wo hm'
+      have fE0 : frag (.itemT p.1 p.2) = true := by simp [frag, pf, pp]
+      have hbk : bucketV (den (.itemT p.1 p.2)) = .i := by simp only [den]; exact bucketV_item _ _
+      have hn0 : 0 < n := by omega
+      simp only [hashG, hfin, if_true] at h
+      rw [xorOpts_eq_mk off vs s fo] at h
+      cases b <;> simp [plain] at pb
+      case num x => simp [hashG, hatom] at h
+      case charT i c => simp [hashG, hatom] at h
+      case byteT i c => simp [hashG, hatom] at h
+      case str r off hh => simp [hashG, hatom] at h
+      case bytes r off => simp [hashG, hatom] at h
+      case array vs' off' c' => exact hna vs' off' c' rfl
+      case itemT j y => exact itemNe j y (.array vs off c) fb' da wa' fa' (by intro a b e; cases e) s' s h0.symm
+      case entryT k v =>
+        exact entryNe k v (.array vs off c) db wb' fb' da wa' fa' (by intro a b e; cases e) s' s h0.symm
+      case dict m' =>
+        exact dictNe m' (.array vs off c) db da wb' wa' fb' fa' (by intro a e; cases e) rfl s' s h0.symm
+      case relation ns' rows' =>
+        exact relNe ns' rows' (.array vs off c) db da wb' wa' fb' fa' (by intro a b e; cases e) rfl s' s h0.symm
+      case union bs' =>
+        exact unionNe bs' (.array vs off c) db da wb' wa' fb' fa' (by intro a e; cases e) rfl s' s h0.symm
+      case empty =>
+        simp [hashG, hfin, hatom] at h
+        rw [h.1] at hmem
+        simp at hmem
+      case true_ =>
+        simp [hashG, hfin, hatom] at h
+        rw [h.1] at hmem
+        simp at hmem
+        have hu : atomAt (.itemT p.1 p.2) s = atomAt (.gtuple []) [] := by
+          rw [hmem]; simp [atomAt, hashG, hfin, hatom, xorAttrs, hxor_nil_right]
+        have := (atomDen _ _ _ _ dE0 (by simpa [depth] using hn0) wE0
+          (by simp [wf, wfAttrs, namesOf, specialisable]) fE0 (by simp [frag, fragAttrs]) hu).2
+        rw [this] at hbk
+        simp [den, denAttrs, V.mkTup, bucketV_unit] at hbk
+      case gtuple bs =>
+        obtain ⟨nb, _, fbs, _⟩ := gtuple_facts n bs db wb' (by simpa [frag] using fb')
+        simp only [hashG, hfin, hatom, if_true] at h
+        simp at h
+        have := gtuple_payload_mem bs s' nb fbs
+        rw [show hatom "mapC" (V.set []) s' = [V.tup [("mapC", V.set []), ("seed", V.set s')]] from rfl, ← h.1,
+          mem_mk] at this
+        obtain ⟨q, hq, e'⟩ := List.mem_map.1 this
+        obtain ⟨qp, qf⟩ := fragOpts_mem vs q.2 fo (idxItems_mem vs off q hq)
+        exact atomAt_ne_mapC (.itemT q.1 q.2) (by simp [frag, qf, qp]) rfl _ _ _ e'
+      case generic ys =>
+        obtain ⟨fy, ny, ney, _, wy, dy, py⟩ := generic_facts n ys db wb' (by simpa [frag] using fb')
+        have ay := atoms_nodup ys fy py ny (fun x hx y hy =>
+          memH ys [] dy (by simp) wy rfl fy rfl py (by simp) x (by simp [hx]) y (by simp [hy]))
+        have hgm : ∀ y, y ∈ ys → genericMember y = true := by
+          simp only [wf, Bool.and_eq_true] at wb'
+          exact fun y hy => List.all_eq_true.1 wb'.1.1.2 y hy
+        simp [hashG, hfin, hatom] at h
+        rw [h.1] at hmem
+        obtain ⟨y, hy, e⟩ := xorList_mem_atom ys fy py ay _ hmem
+        have := (atomDen y _ [] s (dy y hy) dE0 (wfList_mem ys y wy hy) wE0 (fragList_mem ys y fy hy) fE0 e).2
+        rw [← this, bucketV_genericMember y (hgm y hy)] at hbk
+        cases hbk
     cases a with
     | num x =>
       cases b with
@@ -4017,30 +4220,91 @@ theorem main_frag : ∀ (n : Nat) (a b : Rep), depth a < n → depth b < n → w
         simp [hashG, hatom, den, vpair]; constructor <;> (rintro ⟨h1, h2⟩; exact ⟨h2, h1⟩)
       | _ => cross htag fb
     | itemT i x =>
-      cases b with
-      | itemT j y =>
-        simp only [frag, Bool.and_eq_true] at fa fb
+      by_cases hbi : ∃ j y, b = .itemT j y
+      · obtain ⟨j, y, rfl⟩ := hbi
+        have fx : frag x = true := by simpa [frag, plain] using fa
+        have fy : frag y = true := by simpa [frag, plain] using fb
         have dx : depth x < n := by simp only [depth] at ha; omega
         have dy : depth y < n := by simp only [depth] at hb; omega
-        have := (ih x y dx dy (by simpa [wf] using wa) (by simpa [wf] using wb) fa.2 fb.2).1
-        refine ⟨?_, fun hp => by simp [plain] at hp⟩
-        simp only [equal, equalG, Bool.and_eq_true, beq_iff_eq]
-        rw [show equalG true x y = equal x y from rfl, this]
-        simp [den, vpair]
-      | _ => cross htag fb
+        have M := ih x y dx dy (by simpa [wf] using wa) (by simpa [wf] using wb) fx fy
+        have key : ∀ σ σ' : HV, atomAt x σ = atomAt y σ' ↔ (σ = σ' ∧ den x = den y) := by
+          intro σ σ'
+          rw [atom_iff_hash x y fx rfl fy rfl]
+          exact M.2 rfl rfl σ σ'
+        refine ⟨?_, fun _ _ s s' => ?_⟩
+        · simp only [equal, equalG, Bool.and_eq_true, beq_iff_eq]
+          rw [show equalG true x y = equal x y from rfl, M.1]
+          simp [den, vpair]
+        · have hl : hashG true (.itemT i x) s = hatom "fin" (.set [atomAt x (intSeed i s)]) s := by
+            simp [hashG, tfin, intSeed, hash_singleton x fx rfl]
+          have hr : hashG true (.itemT j y) s' = hatom "fin" (.set [atomAt y (intSeed j s')]) s' := by
+            simp [hashG, tfin, intSeed, hash_singleton y fy rfl]
+          rw [hl, hr]
+          constructor
+          · intro h
+            have h' : atomAt x (intSeed i s) = atomAt y (intSeed j s') ∧ s = s' := by simpa [hatom] using h
+            obtain ⟨h1, rfl⟩ := h'
+            obtain ⟨hs, hd⟩ := (key _ _).1 h1
+            have hij := ((intSeed_inj _ _ _ _).1 hs).1
+            subst hij
+            exact ⟨rfl, by simp only [den]; rw [hd]⟩
+          · rintro ⟨rfl, hd⟩
+            simp only [den] at hd
+            obtain ⟨h1, h2⟩ := vpair_inj hd
+            have hij : i = j := by simpa using h1
+            subst hij
+            rw [(key (intSeed i s) (intSeed i s)).2 ⟨rfl, h2⟩]
+      · have hni : ∀ j y, b ≠ .itemT j y := fun j y e => hbi ⟨j, y, e⟩
+        have hct : ctorTag (.itemT i x) ≠ ctorTag b := by
+          cases b <;> simp [ctorTag]
+          case itemT j y => exact hni j y rfl
+        have heq : equal (.itemT i x) b = false := by
+          cases b <;> simp [equal, equalG]
+          case itemT j y => exact absurd rfl (hni j y)
+        exact cross_lemma _ _ hct htag heq (fun _ _ s s' => itemNe i x b fa hb wb fb hni s s')
     | entryT k v =>
-      cases b with
-      | entryT k' v' =>
-        simp only [frag, Bool.and_eq_true] at fa fb
-        simp only [wf, Bool.and_eq_true] at wa wb
+      by_cases hbe : ∃ k' v', b = .entryT k' v'
+      · obtain ⟨k', v', rfl⟩ := hbe
+        have fkv : frag k = true ∧ frag v = true := by simpa [frag, plain] using fa
+        have fkv' : frag k' = true ∧ frag v' = true := by simpa [frag, plain] using fb
+        have wkv : wf k = true ∧ wf v = true := by simpa [wf] using wa
+        have wkv' : wf k' = true ∧ wf v' = true := by simpa [wf] using wb
         simp only [depth] at ha hb
-        have h1 := (ih k k' (by omega) (by omega) wa.1 wb.1 fa.1.2 fb.1.2).1
-        have h2 := (ih v v' (by omega) (by omega) wa.2 wb.2 fa.2 fb.2).1
-        refine ⟨?_, fun hp => by simp [plain] at hp⟩
-        simp only [equal, equalG, Bool.and_eq_true]
-        rw [show equalG true k k' = equal k k' from rfl, show equalG true v v' = equal v v' from rfl, h1, h2]
-        simp [den, vpair]
-      | _ => cross htag fb
+        have M1 := ih k k' (by omega) (by omega) wkv.1 wkv'.1 fkv.1 fkv'.1
+        have M2 := ih v v' (by omega) (by omega) wkv.2 wkv'.2 fkv.2 fkv'.2
+        refine ⟨?_, fun _ _ s s' => ?_⟩
+        · simp only [equal, equalG, Bool.and_eq_true]
+          rw [show equalG true k k' = equal k k' from rfl, show equalG true v v' = equal v v' from rfl, M1.1, M2.1]
+          simp [den, vpair]
+        · have hl : hashG true (.entryT k v) s = hatom "fin" (.set [atomAt v (hashG true k s)]) s := by
+            simp [hashG, tfin, hash_singleton v fkv.2 rfl]
+          have hr : hashG true (.entryT k' v') s' = hatom "fin" (.set [atomAt v' (hashG true k' s')]) s' := by
+            simp [hashG, tfin, hash_singleton v' fkv'.2 rfl]
+          rw [hl, hr]
+          constructor
+          · intro h
+            have h' : atomAt v (hashG true k s) = atomAt v' (hashG true k' s') ∧ s = s' := by simpa [hatom] using h
+            obtain ⟨h1, rfl⟩ := h'
+            rw [atom_iff_hash v v' fkv.2 rfl fkv'.2 rfl] at h1
+            obtain ⟨hs, hd⟩ := (M2.2 rfl rfl _ _).1 h1
+            obtain ⟨_, hk⟩ := (M1.2 rfl rfl _ _).1 hs
+            exact ⟨rfl, by simp only [den]; rw [hd, hk]⟩
+          · rintro ⟨rfl, hd⟩
+            simp only [den] at hd
+            obtain ⟨h1, h2⟩ := vpair_inj hd
+            have hk : hashG true k s = hashG true k' s := (M1.2 rfl rfl s s).2 ⟨rfl, h1⟩
+            have : atomAt v (hashG true k s) = atomAt v' (hashG true k' s) := by
+              rw [atom_iff_hash v v' fkv.2 rfl fkv'.2 rfl]
+              exact (M2.2 rfl rfl _ _).2 ⟨hk, h2⟩
+            rw [this]
+      · have hne : ∀ k' v', b ≠ .entryT k' v' := fun k' v' e => hbe ⟨k', v', e⟩
+        have hct : ctorTag (.entryT k v) ≠ ctorTag b := by
+          cases b <;> simp [ctorTag]
+          case entryT k' v' => exact hne k' v' rfl
+        have heq : equal (.entryT k v) b = false := by
+          cases b <;> simp [equal, equalG]
+          case entryT k' v' => exact absurd rfl (hne k' v')
+        exact cross_lemma _ _ hct htag heq (fun _ _ s s' => entryNe k v b ha wa fa hb wb fb hne s s')
     | str r off h =>
       cases b with
       | str r' off' h' =>
@@ -4081,14 +4345,8 @@ theorem main_frag : ∀ (n : Nat) (a b : Rep), depth a < n → depth b < n → w
         simp [hashG, hfin, hatom] at h
         exact xorList_ne_nil ys fy py ay ney h.1
       | array vs' off' c' =>
-        obtain ⟨fo, hh, _, _, _, _⟩ := array_facts n vs' off' c' hb wb fb
-        apply cross_lemma _ _ (by simp [ctorTag]) htag (by simp [equal, equalG])
-        intro _ _ s s' h
-        simp [hashG, hfin, hatom] at h
-        rw [xorOpts_eq_mk off' vs' s' fo] at h
-        have := (mk_eq_nil _).1 h.1
-        simp [arrAtoms] at this
-        exact idxItems_ne_nil off' vs' hh this
+        exact cross_lemma _ _ (by simp [ctorTag]) htag (by simp [equal, equalG])
+          (fun pa _ s s' h => arrNe vs' off' c' _ hb ha wb wa fb fa (by intro a b c e; cases e) pa s' s h.symm)
       | gtuple bs =>
         obtain ⟨nb, _, fbs, _⟩ := gtuple_facts n bs hb wb fb
         apply cross_lemma _ _ (by simp [ctorTag]) htag (by simp [equal, equalG])
@@ -4107,6 +4365,12 @@ theorem main_frag : ∀ (n : Nat) (a b : Rep), depth a < n → depth b < n → w
       | union bs' =>
         exact cross_lemma _ _ (by simp [ctorTag]) htag (by simp [equal, equalG])
           (fun pa _ s s' h => unionNe bs' _ hb ha wb wa fb fa (by intro a e; cases e) pa s' s h.symm)
+      | itemT j' y' =>
+        exact cross_lemma _ _ (by simp [ctorTag]) htag (by simp [equal, equalG])
+          (fun _ _ s s' h => itemNe j' y' _ fb ha wa fa (by intro a b e; cases e) s' s h.symm)
+      | entryT k' v' =>
+        exact cross_lemma _ _ (by simp [ctorTag]) htag (by simp [equal, equalG])
+          (fun _ _ s s' h => entryNe k' v' _ hb wb fb ha wa fa (by intro a b e; cases e) s' s h.symm)
       | _ => cross htag fb
     | true_ =>
       cases b with
@@ -4130,23 +4394,8 @@ theorem main_frag : ∀ (n : Nat) (a b : Rep), depth a < n → depth b < n → w
         simp [den, denAttrs, V.mkTup] at this
         apply nty; simp [denList, this]
       | array vs' off' c' =>
-        obtain ⟨fo, hh, _, _, _, _⟩ := array_facts n vs' off' c' hb wb fb
-        apply cross_lemma _ _ (by simp [ctorTag]) htag (by simp [equal, equalG])
-        intro _ _ s s' h
-        simp [hashG, hfin, hatom] at h
-        rw [xorOpts_eq_mk off' vs' s' fo] at h
-        -- the single atom on the left has seed [], array item atoms have an index seed
-        cases hi : idxItems off' vs' with
-        | nil => exact idxItems_ne_nil off' vs' hh hi
-        | cons p r =>
-          have hm : atomAt p.2 (intSeed p.1 s') ∈ mk (arrAtoms off' vs' s') := by
-            rw [mem_mk]; simp [arrAtoms, hi]
-          rw [← h.1] at hm
-          simp at hm
-          obtain ⟨pp, pf⟩ := fragOpts_mem vs' p.2 fo (idxItems_mem vs' off' p (by rw [hi]; simp))
-          obtain ⟨t, q, e⟩ := atomAt_seed p.2 pf pp (intSeed p.1 s')
-          rw [e] at hm
-          simp [intSeed, hatom] at hm
+        exact cross_lemma _ _ (by simp [ctorTag]) htag (by simp [equal, equalG])
+          (fun pa _ s s' h => arrNe vs' off' c' _ hb ha wb wa fb fa (by intro a b c e; cases e) pa s' s h.symm)
       | gtuple bs =>
         obtain ⟨nb, _, fbs, _⟩ := gtuple_facts n bs hb wb fb
         apply cross_lemma _ _ (by simp [ctorTag]) htag (by simp [equal, equalG])
@@ -4165,6 +4414,12 @@ theorem main_frag : ∀ (n : Nat) (a b : Rep), depth a < n → depth b < n → w
       | union bs' =>
         exact cross_lemma _ _ (by simp [ctorTag]) htag (by simp [equal, equalG])
           (fun pa _ s s' h => unionNe bs' _ hb ha wb wa fb fa (by intro a e; cases e) pa s' s h.symm)
+      | itemT j' y' =>
+        exact cross_lemma _ _ (by simp [ctorTag]) htag (by simp [equal, equalG])
+          (fun _ _ s s' h => itemNe j' y' _ fb ha wa fa (by intro a b e; cases e) s' s h.symm)
+      | entryT k' v' =>
+        exact cross_lemma _ _ (by simp [ctorTag]) htag (by simp [equal, equalG])
+          (fun _ _ s s' h => entryNe k' v' _ hb wb fb ha wa fa (by intro a b e; cases e) s' s h.symm)
       | _ => cross htag fb
     | gtuple as =>
       obtain ⟨na, was, fas, das⟩ := gtuple_facts n as ha wa fa
@@ -4218,8 +4473,14 @@ theorem main_frag : ∀ (n : Nat) (a b : Rep), depth a < n → depth b < n → w
         | byteT j d =>
           intro _ _ s s'
           exact ⟨fun h => by simp [hashG, hfin, hatom] at h, fun h => absurd (htag h.2) (by simp [ctorTag])⟩
-        | itemT j y => intro _ hq; simp [plain] at hq
-        | entryT k v => intro _ hq; simp [plain] at hq
+        | itemT j y =>
+          intro _ _ s s'
+          exact ⟨fun h => absurd h.symm (itemNe j y _ fb ha wa fa (by intro a b e; cases e) s' s),
+            fun h => absurd (htag h.2) (by simp [ctorTag])⟩
+        | entryT k v =>
+          intro _ _ s s'
+          exact ⟨fun h => absurd h.symm (entryNe k v _ hb wb fb ha wa fa (by intro a b e; cases e) s' s),
+            fun h => absurd (htag h.2) (by simp [ctorTag])⟩
         | _ => simp [isTuple] at hbt
       · -- against a non-tuple
         have hbt' : isTuple b = false := by simpa using hbt
@@ -4237,17 +4498,8 @@ theorem main_frag : ∀ (n : Nat) (a b : Rep), depth a < n → depth b < n → w
           obtain ⟨y, hy, e⟩ := xorList_mem_atom ys fy py ay _ this
           exact atomAt_ne_mapC y (fragList_mem ys y fy hy) (py y hy) [] _ _ e
         | array vs' off' c' =>
-          obtain ⟨fo, hh, _, _, _, _⟩ := array_facts n vs' off' c' hb wb fb
-          apply cross_lemma _ _ (by simp [ctorTag]) htag (by simp [equal, equalG, isTuple])
-          intro _ _ s s' h
-          simp only [hashG, hfin, hatom, if_true] at h
-          simp at h
-          have := pm s
-          rw [show hatom "mapC" (V.set []) s = [V.tup [("mapC", V.set []), ("seed", V.set s)]] from rfl, h.1,
-            xorOpts_eq_mk off' vs' s' fo, mem_mk] at this
-          obtain ⟨p, hp, e⟩ := List.mem_map.1 this
-          obtain ⟨pp, pf⟩ := fragOpts_mem vs' p.2 fo (idxItems_mem vs' off' p hp)
-          exact atomAt_ne_mapC p.2 pf pp _ _ _ e
+          exact cross_lemma _ _ (by simp [ctorTag]) htag (by simp [equal, equalG, isTuple])
+            (fun pa _ s s' h => arrNe vs' off' c' _ hb ha wb wa fb fa (by intro a b c e; cases e) pa s' s h.symm)
         | empty =>
           apply cross_lemma _ _ (by simp [ctorTag]) htag (by simp [equal, equalG, isTuple])
           intro _ _ s s' h
@@ -4340,22 +4592,8 @@ theorem main_frag : ∀ (n : Nat) (a b : Rep), depth a < n → depth b < n → w
         obtain ⟨y, hy, e⟩ := xorList_mem_atom xs fx px ax _ this
         exact atomAt_ne_mapC y (fragList_mem xs y fx hy) (px y hy) [] _ _ e
       | array vs' off' c' =>
-        obtain ⟨fo, hh, _, _, _, _⟩ := array_facts n vs' off' c' hb wb fb
-        apply cross_lemma _ _ (by simp [ctorTag]) htag (by simp [equal, equalG])
-        intro _ _ s s' h
-        simp [hashG, hfin, hatom] at h
-        rw [xorOpts_eq_mk off' vs' s' fo] at h
-        -- member atoms of the generic set have seed [], array item atoms an index seed
-        cases hi : idxItems off' vs' with
-        | nil => exact idxItems_ne_nil off' vs' hh hi
-        | cons p r =>
-          have hm : atomAt p.2 (intSeed p.1 s') ∈ mk (arrAtoms off' vs' s') := by
-            rw [mem_mk]; simp [arrAtoms, hi]
-          rw [← h.1] at hm
-          obtain ⟨y, hy, e⟩ := xorList_mem_atom xs fx px ax _ hm
-          obtain ⟨pp, pf⟩ := fragOpts_mem vs' p.2 fo (idxItems_mem vs' off' p (by rw [hi]; simp))
-          have := atomAt_seed_inj y p.2 (fragList_mem xs y fx hy) (px y hy) pf pp _ _ e
-          simp [intSeed, hatom] at this
+        exact cross_lemma _ _ (by simp [ctorTag]) htag (by simp [equal, equalG])
+          (fun pa _ s s' h => arrNe vs' off' c' _ hb ha wb wa fb fa (by intro a b c e; cases e) pa s' s h.symm)
       | dict m' =>
         exact cross_lemma _ _ (by simp [ctorTag]) htag (by simp [equal, equalG, isTuple])
           (fun pa _ s s' h => dictNe m' _ hb ha wb wa fb fa (by intro m e; cases e) pa s' s h.symm)
@@ -4365,6 +4603,12 @@ theorem main_frag : ∀ (n : Nat) (a b : Rep), depth a < n → depth b < n → w
       | union bs' =>
         exact cross_lemma _ _ (by simp [ctorTag]) htag (by simp [equal, equalG])
           (fun pa _ s s' h => unionNe bs' _ hb ha wb wa fb fa (by intro a e; cases e) pa s' s h.symm)
+      | itemT j' y' =>
+        exact cross_lemma _ _ (by simp [ctorTag]) htag (by simp [equal, equalG])
+          (fun _ _ s s' h => itemNe j' y' _ fb ha wa fa (by intro a b e; cases e) s' s h.symm)
+      | entryT k' v' =>
+        exact cross_lemma _ _ (by simp [ctorTag]) htag (by simp [equal, equalG])
+          (fun _ _ s s' h => entryNe k' v' _ hb wb fb ha wa fa (by intro a b e; cases e) s' s h.symm)
       | _ => cross htag fb
     | array vs off c =>
       obtain ⟨fo, hh, hl, wo, hc, dv⟩ := array_facts n vs off c ha wa fa
@@ -4417,59 +4661,17 @@ theorem main_frag : ∀ (n : Nat) (a b : Rep), depth a < n → depth b < n → w
             have h' : seqM "@item" off (denOpts vs) = seqM "@item" off' (denOpts vs') := by simpa using h
             rw [(array_core vs vs' off off' s fo fo' HH).2 h']
       | empty =>
-        apply cross_lemma _ _ (by simp [ctorTag]) htag (by simp [equal, equalG])
-        intro _ _ s s' h
-        simp [hashG, hfin, hatom] at h
-        rw [xorOpts_eq_mk off vs s fo] at h
-        have := (mk_eq_nil _).1 h.1
-        simp [arrAtoms] at this
-        exact idxItems_ne_nil off vs hh this
+        exact cross_lemma _ _ (by simp [ctorTag]) htag (by simp [equal, equalG])
+          (fun _ pb s s' => arrNe vs off c _ ha hb wa wb fa fb (by intro a b c e; cases e) pb s s')
       | true_ =>
-        apply cross_lemma _ _ (by simp [ctorTag]) htag (by simp [equal, equalG])
-        intro _ _ s s' h
-        simp [hashG, hfin, hatom] at h
-        rw [xorOpts_eq_mk off vs s fo] at h
-        cases hi : idxItems off vs with
-        | nil => exact idxItems_ne_nil off vs hh hi
-        | cons p r =>
-          have hm : atomAt p.2 (intSeed p.1 s) ∈ mk (arrAtoms off vs s) := by
-            rw [mem_mk]; simp [arrAtoms, hi]
-          rw [h.1] at hm
-          simp at hm
-          obtain ⟨pp, pf⟩ := fragOpts_mem vs p.2 fo (idxItems_mem vs off p (by rw [hi]; simp))
-          obtain ⟨t, q, e⟩ := atomAt_seed p.2 pf pp (intSeed p.1 s)
-          rw [e] at hm
-          simp [intSeed, hatom] at hm
+        exact cross_lemma _ _ (by simp [ctorTag]) htag (by simp [equal, equalG])
+          (fun _ pb s s' => arrNe vs off c _ ha hb wa wb fa fb (by intro a b c e; cases e) pb s s')
       | gtuple bs =>
-        obtain ⟨nb, _, fbs, _⟩ := gtuple_facts n bs hb wb fb
-        apply cross_lemma _ _ (by simp [ctorTag]) htag (by simp [equal, equalG])
-        intro _ _ s s' h
-        simp only [hashG, hfin, hatom, if_true] at h
-        simp at h
-        have := gtuple_payload_mem bs s' nb fbs
-        rw [show hatom "mapC" (V.set []) s' = [V.tup [("mapC", V.set []), ("seed", V.set s')]] from rfl, ← h.1,
-          xorOpts_eq_mk off vs s fo, mem_mk] at this
-        obtain ⟨p, hp, e⟩ := List.mem_map.1 this
-        obtain ⟨pp, pf⟩ := fragOpts_mem vs p.2 fo (idxItems_mem vs off p hp)
-        exact atomAt_ne_mapC p.2 pf pp _ _ _ e
+        exact cross_lemma _ _ (by simp [ctorTag]) htag (by simp [equal, equalG])
+          (fun _ pb s s' => arrNe vs off c _ ha hb wa wb fa fb (by intro a b c e; cases e) pb s s')
       | generic ys =>
-        obtain ⟨fy, ny, ney, _, wy, dy, py⟩ := generic_facts n ys hb wb fb
-        have ay := atoms_nodup ys fy py ny (fun x hx y hy =>
-          memH ys [] dy (by simp) wy rfl fy rfl py (by simp) x (by simp [hx]) y (by simp [hy]))
-        apply cross_lemma _ _ (by simp [ctorTag]) htag (by simp [equal, equalG])
-        intro _ _ s s' h
-        simp [hashG, hfin, hatom] at h
-        rw [xorOpts_eq_mk off vs s fo] at h
-        cases hi : idxItems off vs with
-        | nil => exact idxItems_ne_nil off vs hh hi
-        | cons p r =>
-          have hm : atomAt p.2 (intSeed p.1 s) ∈ mk (arrAtoms off vs s) := by
-            rw [mem_mk]; simp [arrAtoms, hi]
-          rw [h.1] at hm
-          obtain ⟨y, hy, e⟩ := xorList_mem_atom ys fy py ay _ hm
-          obtain ⟨pp, pf⟩ := fragOpts_mem vs p.2 fo (idxItems_mem vs off p (by rw [hi]; simp))
-          have := atomAt_seed_inj y p.2 (fragList_mem ys y fy hy) (py y hy) pf pp _ _ e
-          simp [intSeed, hatom] at this
+        exact cross_lemma _ _ (by simp [ctorTag]) htag (by simp [equal, equalG])
+          (fun _ pb s s' => arrNe vs off c _ ha hb wa wb fa fb (by intro a b c e; cases e) pb s s')
       | dict m' =>
         exact cross_lemma _ _ (by simp [ctorTag]) htag (by simp [equal, equalG, isTuple])
           (fun pa _ s s' h => dictNe m' _ hb ha wb wa fb fa (by intro m e; cases e) pa s' s h.symm)
@@ -4479,6 +4681,12 @@ theorem main_frag : ∀ (n : Nat) (a b : Rep), depth a < n → depth b < n → w
       | union bs' =>
         exact cross_lemma _ _ (by simp [ctorTag]) htag (by simp [equal, equalG])
           (fun pa _ s s' h => unionNe bs' _ hb ha wb wa fb fa (by intro a e; cases e) pa s' s h.symm)
+      | itemT j' y' =>
+        exact cross_lemma _ _ (by simp [ctorTag]) htag (by simp [equal, equalG])
+          (fun _ _ s s' h => itemNe j' y' _ fb ha wa fa (by intro a b e; cases e) s' s h.symm)
+      | entryT k' v' =>
+        exact cross_lemma _ _ (by simp [ctorTag]) htag (by simp [equal, equalG])
+          (fun _ _ s s' h => entryNe k' v' _ hb wb fb ha wa fa (by intro a b e; cases e) s' s h.symm)
       | _ => cross htag fb
     | dict m =>
       by_cases hbd : ∃ m', b = .dict m'
@@ -4693,5 +4901,42 @@ theorem array_den_inj (vs vs' : List (Option Rep)) (off off' c c' : Int)
     exact seqM_inj "@item" _ _ off off' (headSome_denOpts vs wa.1.1.1) (headSome_denOpts vs' wb.1.1.1)
       (lastSome_noTrail _ (lastSome_denOpts vs wa.1.1.2)) (lastSome_noTrail _ (lastSome_denOpts vs' wb.1.1.2)) h'
   · rintro ⟨rfl, h⟩; rw [h]
+
+/-! ### after the repair of the item/entry tuple hashes every representation is in the fragment -/
+mutual
+theorem frag_all : ∀ x : Rep, frag x = true
+  | .num _ | .charT _ _ | .byteT _ _ | .empty | .true_ | .str _ _ _ | .bytes _ _ => rfl
+  | .gtuple as => by simp [frag, fragAttrs_all as]
+  | .itemT _ x => by simp [frag, plain, frag_all x]
+  | .entryT k v => by simp [frag, plain, frag_all k, frag_all v]
+  | .generic xs => by simp [frag, fragList_all xs]
+  | .array vs _ _ => by simp [frag, fragOpts_all vs]
+  | .dict m => by simp [frag, fragDict_all m]
+  | .relation _ rows => by simp [frag, fragRows_all rows]
+  | .union bs => by simp [frag, fragAttrs_all bs]
+theorem fragRows_all : ∀ rows : List (List Rep), fragRows rows = true
+  | [] => rfl
+  | row :: r => by simp [fragRows, fragPlainList_all row, fragRows_all r]
+theorem fragDict_all : ∀ m : List (Rep × List Rep), fragDict m = true
+  | [] => rfl
+  | (k, vs) :: r => by simp [fragDict, plain, frag_all k, fragPlainList_all vs, fragDict_all r]
+theorem fragPlainList_all : ∀ xs : List Rep, fragPlainList xs = true
+  | [] => rfl
+  | x :: r => by simp [fragPlainList, plain, frag_all x, fragPlainList_all r]
+theorem fragAttrs_all : ∀ as : List (String × Rep), fragAttrs as = true
+  | [] => rfl
+  | (_, v) :: r => by simp [fragAttrs, plain, frag_all v, fragAttrs_all r]
+theorem fragList_all : ∀ xs : List Rep, fragList xs = true
+  | [] => rfl
+  | x :: r => by simp [fragList, frag_all x, fragList_all r]
+theorem fragOpts_all : ∀ vs : List (Option Rep), fragOpts vs = true
+  | [] => rfl
+  | some x :: r => by simp [fragOpts, plain, frag_all x, fragOpts_all r]
+  | none :: r => by simp [fragOpts, fragOpts_all r]
+end
+
+/-- the main theorem for all canonical representations -/
+theorem main_all (a b : Rep) (ha : wf a = true) (hb : wf b = true) : MainAt a b :=
+  main_frag (depth a + depth b + 1) a b (by omega) (by omega) ha hb (frag_all a) (frag_all b)
 
 end Arrai.C02
